@@ -747,6 +747,33 @@ def descriptor_obligations(world, prop):
     return obs
 
 
+def cache_frozen_obligations(world, prop, rel, cname):
+    """No method mutates a cached lazy value in place (a later read would return the mutated
+    object, so results would depend on what ran before)."""
+    cls = find_class(world, rel, cname)
+    base = f'coherence:{rel}::{cname}'
+    if cls is None:
+        return [_ob(f'{base}/class', prop, LOST, None, '', f'class {cname} not found')]
+    methods = all_methods(world, cls)
+    lazies = {fi.name for fi in methods if fi.is_lazy}
+    obs = []
+    for fi in methods:
+        bad = [e for e in fi.effects.values()
+               if e.origin.startswith('F:') and e.origin[2:].rstrip('/') in lazies
+               and e.site.split('.')[-1] == fi.name]
+        oid = f'{base}.{fi.name}/cache-frozen'
+        text = (f'{fi.qualname} performs no in-place write on a cached lazy value '
+                f'({len(lazies)} lazy attributes)')
+        if bad:
+            e = bad[0]
+            obs.append(_ob(oid, prop, REFUTED, fi, text,
+                           f'in-place write to the cache of {e.origin[2:]}: {e.desc}',
+                           {'cache': e.origin[2:], 'line': e.lineno}))
+        elif fi.effects or fi.is_lazy or not fi.name.startswith('__'):
+            obs.append(_ob(oid, prop, DISCHARGED, fi, text))
+    return obs
+
+
 def determinism_obligations(world, prop, targets):
     """Getters are deterministic functions of the fields they read: no RNG, no global state."""
     obs = []
@@ -790,6 +817,10 @@ PLAN = {
         ('purity', 'photutils/profiles/radial_profile.py', 'RadialProfile'),
         ('purity', 'photutils/profiles/curve_of_growth.py', 'CurveOfGrowth'),
         ('descriptor',),
+        ('frozen', 'photutils/background/background_2d.py', 'Background2D'),
+        ('frozen', 'photutils/profiles/radial_profile.py', 'RadialProfile'),
+        ('frozen', 'photutils/profiles/curve_of_growth.py', 'CurveOfGrowth'),
+        ('frozen', 'photutils/psf/gridded_models.py', 'GriddedPSFModel'),
     ],
     'C11': [('purity', 'photutils/background/background_2d.py', 'Background2D')],
     'C12': [('config', 'photutils/psf/photometry.py', 'PSFPhotometry'),
@@ -801,8 +832,12 @@ PLAN = {
             ('config', 'photutils/detection/daofinder.py', 'DAOStarFinder'),
             ('config', 'photutils/detection/irafstarfinder.py', 'IRAFStarFinder')],
     'C20': [('config', 'photutils/isophote/ellipse.py', 'Ellipse')],
-    'C07': [('purity', 'photutils/segmentation/catalog.py', 'SourceCatalog')],
-    'C16': [('purity', 'photutils/aperture/stats.py', 'ApertureStats')],
+    'C07': [('purity', 'photutils/segmentation/catalog.py', 'SourceCatalog'),
+            ('frozen', 'photutils/segmentation/catalog.py', 'SourceCatalog')],
+    'C08': [('frozen', 'photutils/segmentation/catalog.py', 'SourceCatalog'),
+            ('frozen', 'photutils/aperture/stats.py', 'ApertureStats')],
+    'C16': [('purity', 'photutils/aperture/stats.py', 'ApertureStats'),
+            ('frozen', 'photutils/aperture/stats.py', 'ApertureStats')],
     'C13': [('config', 'photutils/psf/gridded_models.py', 'GriddedPSFModel'),
             ('purity', 'photutils/psf/gridded_models.py', 'GriddedPSFModel')],
 }
@@ -838,6 +873,8 @@ def run(prop, tier):
             obs += reset_obligations(world, prop, item[1], item[2], item[3])
         elif kind == 'descriptor':
             obs += descriptor_obligations(world, prop)
+        elif kind == 'frozen':
+            obs += cache_frozen_obligations(world, prop, item[1], item[2])
     # de-duplicate (inherited methods appear through several classes)
     seen, out = set(), []
     for o in obs:
